@@ -24,4 +24,5 @@ NOT_APPLICABLE = {}
 # property id -> contract module (a module may exist before the property is claimed in CHECKS)
 CHECK_MODULES = {
     'C04': 'contracts.c04',
+    'C05': 'contracts.c05',
 }
